@@ -567,7 +567,7 @@ func c05programCase(c *Ctx, p *c05Prog) {
 		gl = append(gl, c05B(g))
 		names = append(names, c05B(c05Names[i]))
 	}
-	term := fmt.Sprintf("PCase %s %s %s %s %s %s %s %s", CoqNat(id), c05stmtsCoq(p.Prog), c05exprsCoq(p.Probes),
+	term := fmt.Sprintf("PCase %s %s %s %s %s %s %s %s", fmt.Sprintf("%d%%N", id), c05stmtsCoq(p.Prog), c05exprsCoq(p.Probes),
 		CoqList(names), out, CoqList(tr), CoqList(pobs), CoqList(gl))
 	c.AddCase(id, term, p, key, len(run.Trace)+len(p.Probes) > 0)
 }
